@@ -163,7 +163,12 @@ impl<'a, Version: VersionTrait, Purpose: PurposeTrait> Paseto<'a, Version, Purpo
                     return Err(PasetoError::FooterInvalid);
                 }
             }
-            _ => {}
+            _ => {
+                //a token without a footer segment can only match an absent or empty expected footer
+                if !footer.into().unwrap_or_default().is_empty() {
+                    return Err(PasetoError::FooterInvalid);
+                }
+            }
         }
 
         //grab the header
